@@ -135,7 +135,9 @@ impl XmlReader {
     }
 
     fn read_xml_internal(file: &FileContent, file_name: &str, files: &Files) -> WriterResult<RustDocument> {
-        if file.processed.load(std::sync::atomic::Ordering::SeqCst) {
+        // mark the file before its imports are followed, so that import cycles and
+        // self-imports end here instead of recursing forever
+        if file.processed.swap(true, std::sync::atomic::Ordering::SeqCst) {
             let rust_doc = RustDocument::empty();
             return Ok(rust_doc);
         }
@@ -148,8 +150,6 @@ impl XmlReader {
         for child in doc.root().children() {
             Self::read(child, files, &mut rust_doc)?;
         }
-
-        file.processed.store(true, std::sync::atomic::Ordering::SeqCst);
 
         Ok(rust_doc)
     }
